@@ -313,6 +313,17 @@ def r7_no_old_session_events(ctx):
     ctx.check(len(er) == 1 and "client::ClientSet::ResetEvents" in er[0]["sets"], "client::event::reset/registered", "", "queued events are not reset on connect")
 
 
+def r8_per_recipient_bytes(ctx):
+    """Each recipient of a buffered event gets bytes built for *its* tick: the stamping cache hands out cached bytes only for the
+    same tick and otherwise serialises the requested one (the get_bytes / BufferedServerEvent::send part of C04.R2) - a recipient
+    served another recipient's cache entry gets a garbled or wrongly stamped copy."""
+    import rules.C04 as C04
+    before = len(ctx.instances)
+    C04.r2_stamping(ctx)
+    keep = [i for i in ctx.instances[before:] if "get_bytes" in i["key"] or "BufferedServerEvent::send" in i["key"]]
+    ctx.instances[before:] = keep
+
+
 RULES = [
     ("C05.R1", "recipient selection: three implementations, every SendMode arm guarded as the mode demands", r1_recipients, 18, ["default", "all-features", "server-only"]),
     ("C05.R2", "clients that connected after buffering are excluded in every arm", r2_late_joiners, 6, ["default", "all-features", "server-only"]),
@@ -321,5 +332,6 @@ RULES = [
     ("C05.R5", "client events with unmappable entities are not serialised; targets are mapped", r5_mapping, 4, ["default", "all-features"]),
     ("C05.R6", "event channels are created from the registered channel kind and remembered", r6_channels, 4, ["default", "all-features"]),
     ("C05.R7", "events queued in a previous session cannot resurface (queue reset on connect, event pools emptied)", r7_no_old_session_events, 3, ["default", "all-features"]),
+    ("C05.R8", "every recipient gets bytes built for its own tick (stamping cache, same rule as C04.R2)", r8_per_recipient_bytes, 5, ["default", "all-features", "server-only"]),
 ]
 THOROUGH_CONFIGS = ["default", "all-features", "server-only"]
